@@ -52,6 +52,14 @@ CHECKS.update({
  'C16': dict(cat='proof', text="PARTIAL. Proved: forward-mode AD over the expression language is sound away from kinks (evalDual_sound), and the executed RQ forward term is smooth on its bin for every parameter value, so it is differentiable in the input and in every parameter with the derivative the dual evaluation returns. Tie: torch.autograd gradients of the real code w.r.t. inputs and w.r.t. conditioner outputs / own parameters (made leaves) are compared along random directions with the dual-number evaluation (dualX floatX) of the SAME Lean model definitions, for every modelled transform in both directions; every parameter receives a finite gradient, backward twice. Autograd itself (chain rule through conditioners) is trusted.",
              tech="Lean 4 proof (AD soundness) + autograd-vs-dual-number correspondence", ref="DESIGN.md §5 C16, §8.2"),
 })
+CHECKS.update({
+ 'C03': dict(cat='proof', text="Lean theorems: change of variables in 1-D and n-D (bijection + derivative with |det| = exp(log-det) + normalised base => exp(log_prob) integrates to 1), closure of 1-D diffeomorphisms under composition with summed log-dets (every program of such parts is normalised, by structural induction), normalised diagonal-normal base for every dimension. Tie: log_prob of random real flows (1-3 stages, Inverse wrappers, three bases, context / embedding net) vs base model at the model-transformed point + summed model log-dets, chained stage by stage. Bijectivity onto the support rests on C09/C02; differentiability of conditioners is a hypothesis. Quadrature only in the search (1-D).",
+             tech="Lean 4 proof (measure theory) + model/implementation correspondence", ref="DESIGN.md §5 C03"),
+ 'C06': dict(cat='proof', text="Lean theorems for EVERY MADE the constructor can build (any feature count, hidden width, number/type of blocks, any hidden degrees incl. random draws, context, multiplier, per-unit maps that may couple batch rows as training-mode batch norm does) and ALL weight values: output unit i*m+r is unchanged when inputs j >= i change; the executable path-count matrix is strictly lower block-triangular; built nets are valid. Tie (exact integers): mask/degrees buffers and autograd Jacobians at all-ones weights equal the model's path counts, for both copies of the implementation (transforms.MADE, nde.MADE, MixtureOfGaussiansMADE), exhaustively up to F<=6, H<=8, 3 blocks. Over the reals (0*inf = NaN caveat).",
+             tech="Lean 4 proof + exact correspondence on both implementation copies", ref="DESIGN.md §5 C06"),
+ 'C20': dict(cat='proof', text="Lean theorems on the executable helper models, all shapes/sizes: tile / repeat_rows placement, merge/split leading dims mutually inverse (explicit split; the -1 inference case partial for empty tensors), sum_except_batch shape and value for every num_batch_dims, searchsorted half-open bin spec on any linearly ordered scalar semantics and its purity, cbrt^3 = x for all signs, logabsdet = log|det| (slogdet by specification; executable det = Matrix.det for n <= 3), mask patterns and counts, temperature, type predicates incl. is_power_of_two <-> exists k, n = 2^k. Tie: exhaustive over all shapes with <= 3 dims and <= 4 per dim with tagged tensors (exact), arguments snapshotted before/after every call.",
+             tech="Lean 4 proof + exhaustive exact correspondence", ref="DESIGN.md §5 C20"),
+})
 NOT_YET = {}
 
 def main():
